@@ -16,6 +16,9 @@ DIMS = {"m": "L", "cm": "L", "km": "L", "s": "T", "dimensionless": "1", "percent
 
 class U(Model):
     """pint Unit token with a dimension"""
+    def truth(self):
+        return True          # a pint Unit object is always truthy (no __bool__/__len__)
+
     kinds = ("Unit",)
 
     def __init__(self, name, dim=None):
@@ -46,6 +49,9 @@ class U(Model):
 
 class Mono(Model):
     """coef * product of unit-conversion ratios (ratio(a,b) = how many b in one a); ratio(b,a) = 1/ratio(a,b)"""
+    def truth(self):
+        return True          # a pint Unit object is always truthy (no __bool__/__len__)
+
 
     def __init__(self, coef=1.0, syms=None):
         self.coef = coef
